@@ -1,1 +1,925 @@
-fn main() {}
+//! mon-digest — C12: the database digest depends only on the immutable files up to the beacon.
+//!
+//! Code under test (real, from /repo): `CardanoImmutableDigester::compute_merkle_tree`,
+//! `CardanoImmutableDigester::compute_digests_for_range` (only as a way to leave cache state behind),
+//! `CardanoDatabaseSignableBuilder::compute_protocol_message`, the memory and JSON digest cache providers.
+//! Oracle: reference.rs (own sha256 per file, own Merkle mountain range) + metamorphic relations.
+mod reference;
+
+use mithril_cardano_node_internal_database::digesters::cache::{
+    ImmutableFileDigestCacheProvider, JsonImmutableFileDigestCacheProvider, JsonImmutableFileDigestCacheProviderBuilder,
+    MemoryImmutableFileDigestCacheProvider,
+};
+use mithril_cardano_node_internal_database::digesters::{CardanoImmutableDigester, ImmutableDigester, ImmutableDigesterError};
+use mithril_cardano_node_internal_database::signable_builder::CardanoDatabaseSignableBuilder;
+use mithril_common::entities::{CardanoDbBeacon, ProtocolMessagePartKey};
+use mithril_common::signable_builder::SignableBuilder;
+use rand_chacha::ChaCha20Rng;
+use reference::{Expect, FileSpec};
+use serde_json::{json, Value};
+use std::path::{Path, PathBuf};
+use std::sync::Arc;
+use vcore::rnd;
+use vcore::{catch, Monitor, Tier};
+
+const EXTS: [&str; 3] = ["chunk", "primary", "secondary"];
+
+// ---------------------------------------------------------------------------------------------
+// model of a database
+
+/// a file or directory that is NOT an immutable file (path relative to the database root)
+#[derive(Clone, Debug)]
+struct Extra {
+    rel: String,
+    /// None = directory
+    content: Option<Vec<u8>>,
+}
+
+fn file_size(rng: &mut ChaCha20Rng) -> usize {
+    match rnd::below(rng, 10) {
+        0 => 0,
+        1 => 1,
+        2..=4 => rnd::usize_below(rng, 64),
+        5..=7 => rnd::usize_below(rng, 1024),
+        _ => rnd::usize_below(rng, 4097),
+    }
+}
+
+/// immutable files of a database (every number, i.e. also the ones that will lie beyond the beacon)
+fn gen_files(rng: &mut ChaCha20Rng, max_trios: u64) -> Vec<FileSpec> {
+    let n = if rnd::chance(rng, 1, 5) { rnd::range(rng, 2, max_trios) } else { rnd::range(rng, 2, max_trios.min(12)) };
+    let start = match rnd::below(rng, 6) {
+        0 => 0,
+        1 => 1,
+        2 => rnd::range(rng, 2, 500),
+        // the numbering crosses 99999 -> 100000: lexicographic and numeric order of the names differ
+        3 => 100_000 - rnd::range(rng, 1, n.max(2) - 1),
+        4 => rnd::range(rng, 5_000, 10_000_000),
+        _ => rnd::range(rng, 1, 20),
+    };
+    let gap = if n > 3 && rnd::chance(rng, 1, 5) { Some(start + rnd::range(rng, 1, n - 2)) } else { None };
+    let mut files: Vec<FileSpec> = vec![];
+    for number in start..start + n {
+        if Some(number) == gap {
+            continue;
+        }
+        let skip = if rnd::chance(rng, 1, 8) { Some(rnd::usize_below(rng, 3)) } else { None };
+        for (i, ext) in EXTS.iter().enumerate() {
+            if Some(i) == skip {
+                continue;
+            }
+            let content = if !files.is_empty() && rnd::chance(rng, 1, 10) {
+                files[rnd::usize_below(rng, files.len())].content.clone()
+            } else {
+                let sz = file_size(rng);
+                rnd::bytes(rng, sz)
+            };
+            files.push(FileSpec { number, name: format!("{number:05}.{ext}"), content });
+        }
+    }
+    // immutable files whose name is not zero padded to 5 digits (same number, other name)
+    if rnd::chance(rng, 1, 4) {
+        for _ in 0..rnd::range(rng, 1, 3) {
+            let number = files[rnd::usize_below(rng, files.len())].number;
+            let ext = EXTS[rnd::usize_below(rng, 3)];
+            let name = if number < 10_000 && rnd::chance(rng, 1, 2) { format!("{number}.{ext}") } else { format!("{number:08}.{ext}") };
+            if files.iter().all(|f| f.name != name) {
+                let sz = file_size(rng);
+                files.push(FileSpec { number, name, content: rnd::bytes(rng, sz) });
+            }
+        }
+    }
+    files
+}
+
+fn numbers(files: &[FileSpec]) -> Vec<u64> {
+    let mut v: Vec<u64> = files.iter().map(|f| f.number).collect();
+    v.sort();
+    v.dedup();
+    v
+}
+
+/// things that are not immutable files: must never influence the root
+fn gen_extras(rng: &mut ChaCha20Rng, files: &[FileSpec]) -> Vec<Extra> {
+    let max = files.iter().map(|f| f.number).max().unwrap_or(0);
+    let min = files.iter().map(|f| f.number).min().unwrap_or(0);
+    let pool: Vec<(String, bool)> = vec![
+        ("immutable/README.md".into(), false),
+        (format!("immutable/{min:05}.chunk.bak"), false),
+        (format!("immutable/{:05}", min + 1), false),
+        ("immutable/.hidden".into(), false),
+        (format!("immutable/{min:05}.chunk~"), false),
+        ("immutable/chunk".into(), false),
+        (format!("immutable/{min:05}.CHUNK"), false),
+        (format!("immutable/{min:05}.chunks"), false),
+        (format!("immutable/{min:05}.primary.tmp"), false),
+        ("immutable/digests.json".into(), false),
+        ("immutable/nested".into(), true),
+        (format!("immutable/nested/{min:05}.chunk"), false),
+        (format!("immutable/nested/{:05}.secondary", max + 1), false),
+        // a directory whose name looks like an immutable file
+        (format!("immutable/{:05}.secondary", max + 50), true),
+        (format!("immutable/{:05}.secondary/{min:05}.chunk", max + 50), false),
+        ("ledger".into(), true),
+        ("ledger/123456".into(), false),
+        (format!("ledger/{min:05}.chunk"), false),
+        ("volatile".into(), true),
+        ("volatile/blocks-0.dat".into(), false),
+        (format!("volatile/{min:05}.primary"), false),
+        ("lock".into(), false),
+        ("clean".into(), false),
+        ("protocolMagicId".into(), false),
+        (format!("{min:05}.chunk"), false),
+        ("gsm".into(), true),
+    ];
+    let mut out = vec![];
+    for (rel, is_dir) in pool {
+        if rnd::chance(rng, 1, 2) {
+            let sz = file_size(rng);
+            out.push(Extra { rel, content: if is_dir { None } else { Some(rnd::bytes(rng, sz)) } });
+        }
+    }
+    out
+}
+
+struct Db {
+    root: PathBuf,
+}
+impl Db {
+    fn immutable_dir(&self) -> PathBuf {
+        self.root.join("immutable")
+    }
+    fn path_of(&self, f: &FileSpec) -> PathBuf {
+        self.immutable_dir().join(&f.name)
+    }
+}
+
+enum Create<'a> {
+    File(&'a FileSpec),
+    Extra(&'a Extra),
+}
+
+/// write a database: `order` = None: sorted by name, immutable files first; Some(rng): creation order shuffled
+fn materialize(root: &Path, files: &[&FileSpec], extras: &[Extra], order: Option<&mut ChaCha20Rng>) -> std::io::Result<Db> {
+    std::fs::create_dir_all(root)?;
+    let mut ops: Vec<Create> = files.iter().map(|f| Create::File(f)).collect();
+    ops.extend(extras.iter().map(Create::Extra));
+    match order {
+        Some(rng) => rnd::shuffle(rng, &mut ops),
+        None => ops.sort_by_key(|o| match o {
+            Create::File(f) => (0, f.name.clone()),
+            Create::Extra(e) => (1, e.rel.clone()),
+        }),
+    }
+    let db = Db { root: root.to_path_buf() };
+    let mut immutable_created = false;
+    for op in ops {
+        match op {
+            Create::File(f) => {
+                std::fs::create_dir_all(db.immutable_dir())?;
+                immutable_created = true;
+                std::fs::write(db.path_of(f), &f.content)?;
+            }
+            Create::Extra(e) => {
+                let p = root.join(&e.rel);
+                match &e.content {
+                    None => std::fs::create_dir_all(&p)?,
+                    Some(c) => {
+                        if let Some(parent) = p.parent() {
+                            std::fs::create_dir_all(parent)?;
+                        }
+                        std::fs::write(&p, c)?;
+                    }
+                }
+            }
+        }
+    }
+    if !immutable_created {
+        std::fs::create_dir_all(db.immutable_dir())?;
+    }
+    Ok(db)
+}
+
+// ---------------------------------------------------------------------------------------------
+// observation of the real code
+
+struct Env {
+    rt: tokio::runtime::Runtime,
+    logger: slog::Logger,
+}
+
+#[derive(Debug, Clone, PartialEq)]
+enum Obs {
+    Root(String),
+    Err { class: String, msg: String },
+    Panic(String),
+}
+
+impl Obs {
+    fn short(&self) -> String {
+        match self {
+            Obs::Root(r) => format!("root {r}"),
+            Obs::Err { class, msg } => format!("error {class}: {msg}"),
+            Obs::Panic(p) => format!("panic {p}"),
+        }
+    }
+    fn tag(&self) -> String {
+        match self {
+            Obs::Root(_) => "root".into(),
+            Obs::Err { class, .. } => format!("error:{class}"),
+            Obs::Panic(_) => "panic".into(),
+        }
+    }
+}
+
+fn err_class(e: &ImmutableDigesterError) -> &'static str {
+    match e {
+        ImmutableDigesterError::ListImmutablesError(_) => "ListImmutablesError",
+        ImmutableDigesterError::NotEnoughImmutable { .. } => "NotEnoughImmutable",
+        ImmutableDigesterError::DigestComputationError(_) => "DigestComputationError",
+        ImmutableDigesterError::MerkleTreeComputationError(_) => "MerkleTreeComputationError",
+    }
+}
+
+fn clip(s: String) -> String {
+    s.chars().take(240).collect()
+}
+
+fn observe_tree(env: &Env, digester: &CardanoImmutableDigester, path: &Path, epoch: u64, beacon: u64) -> Obs {
+    let b = CardanoDbBeacon::new(epoch, beacon);
+    match catch(|| env.rt.block_on(digester.compute_merkle_tree(path, &b))) {
+        Err(p) => Obs::Panic(p),
+        Ok(Err(e)) => Obs::Err { class: err_class(&e).into(), msg: clip(format!("{e}")) },
+        Ok(Ok(tree)) => match catch(|| tree.compute_root()) {
+            Err(p) => Obs::Panic(p),
+            Ok(Err(e)) => Obs::Err { class: "compute_root".into(), msg: clip(format!("{e:#}")) },
+            Ok(Ok(r)) => Obs::Root(r.to_hex()),
+        },
+    }
+}
+
+fn observe_message(env: &Env, digester: Arc<CardanoImmutableDigester>, path: &Path, epoch: u64, beacon: u64) -> Obs {
+    let builder = CardanoDatabaseSignableBuilder::new(digester, path, env.logger.clone());
+    match catch(|| env.rt.block_on(builder.compute_protocol_message(CardanoDbBeacon::new(epoch, beacon)))) {
+        Err(p) => Obs::Panic(p),
+        Ok(Err(e)) => {
+            let class = e
+                .chain()
+                .find_map(|c| c.downcast_ref::<ImmutableDigesterError>().map(err_class))
+                .unwrap_or("signable_builder");
+            Obs::Err { class: class.into(), msg: clip(format!("{e:#}")) }
+        }
+        Ok(Ok(m)) => match m.get_message_part(&ProtocolMessagePartKey::CardanoDatabaseMerkleRoot) {
+            Some(r) => Obs::Root(r.clone()),
+            None => Obs::Err { class: "no_merkle_root_part".into(), msg: "protocol message has no CardanoDatabaseMerkleRoot part".into() },
+        },
+    }
+}
+
+fn no_cache(env: &Env) -> Arc<CardanoImmutableDigester> {
+    Arc::new(CardanoImmutableDigester::new(None, env.logger.clone()))
+}
+
+// ---------------------------------------------------------------------------------------------
+// oracle
+
+/// expectation for a beacon; cross-checks the harness's own tree against the repo's combiner
+fn expectation(files: &[FileSpec], beacon: u64, mon: &mut Monitor) -> Expect {
+    let e = reference::expect(files, beacon);
+    if let Expect::Root(own) = &e {
+        let leaves = reference::leaves(files, beacon);
+        match reference::combine_with_repo_mktree(&leaves) {
+            Some(r) if &r == own => mon.count("reference:own_tree_equals_repo_mktree_over_reference_leaves"),
+            Some(r) => {
+                mon.count("diag:own_tree_differs_from_repo_mktree");
+                mon.inconclusive("the harness's own Merkle-mountain-range combiner differs from the repo's MKTree over the same reference leaves (tree combiner changed? not decided by C12) - expectation falls back on MKTree as final combiner");
+                return Expect::Root(r);
+            }
+            None => {
+                mon.count("diag:repo_mktree_failed_on_reference_leaves");
+            }
+        }
+    }
+    e
+}
+
+struct Ctx<'a> {
+    shard: u64,
+    world: u64,
+    files_desc: &'a Value,
+}
+
+impl Ctx<'_> {
+    fn replay(&self, context: &str, detail: &Value, exp: &Expect, obs: &Obs) -> Value {
+        json!({"rng_label": "c12", "shard": self.shard, "world": self.world, "files": self.files_desc, "context": context,
+               "step": detail, "expected": format!("{exp:?}"), "observed": obs.short()})
+    }
+}
+
+/// Judge one observation against the reference. `context` names the class of the observation.
+fn judge(mon: &mut Monitor, ctx: &Ctx, context: &str, detail: &Value, exp: &Expect, obs: &Obs) {
+    mon.eval();
+    mon.count(&format!("obs:{context}:{}", obs.tag()));
+    match (exp, obs) {
+        (_, Obs::Panic(p)) => mon.violation(
+            &format!("C12 digest computation panics ({context})"),
+            &format!("{p}; step {detail}"),
+            ctx.replay(context, detail, exp, obs),
+        ),
+        (Expect::Root(r), Obs::Root(o)) => {
+            if r != o {
+                mon.violation(
+                    &format!("C12 root differs from the reference over the covered files ({context})"),
+                    &format!("expected {r}, observed {o}; step {detail}"),
+                    ctx.replay(context, detail, exp, obs),
+                );
+            }
+        }
+        (Expect::Root(r), Obs::Err { class, msg }) => mon.violation(
+            &format!("C12 computation fails although every covered file is present ({context}; {class})"),
+            &format!("expected root {r}, observed error {msg}; step {detail}"),
+            ctx.replay(context, detail, exp, obs),
+        ),
+        (Expect::NoBeaconFile, Obs::Err { .. }) => mon.count("expected_error:no_file_numbered_as_the_beacon"),
+        (Expect::NoBeaconFile, Obs::Root(_)) => mon.count("diag:root_returned_without_a_file_numbered_as_the_beacon"),
+    }
+    if let Expect::Root(r) = exp {
+        mon.nontrivial_str(&format!("{r}|{context}|{detail}"));
+    }
+}
+
+// ---------------------------------------------------------------------------------------------
+// cache histories
+
+#[derive(Clone, Copy, Debug, PartialEq)]
+enum SlotKind {
+    Mem,
+    Json(usize),
+    JsonViaBuilder(usize),
+}
+
+#[derive(Clone, Copy, Debug)]
+enum OpKind {
+    Tree,
+    Message,
+    /// compute_digests_for_range(lo..=beacon): leaves cache state behind, root not observed
+    Range(u64),
+}
+
+#[derive(Clone, Debug)]
+struct Op {
+    slot: usize,
+    kind: OpKind,
+    beacon: u64,
+}
+
+struct Script {
+    name: String,
+    slots: Vec<SlotKind>,
+    ops: Vec<Op>,
+}
+
+fn op(slot: usize, kind: OpKind, beacon: u64) -> Op {
+    Op { slot, kind, beacon }
+}
+
+fn scripts_for(rng: &mut ChaCha20Rng, files: &[FileSpec], b: u64) -> Vec<Script> {
+    let nums = numbers(files);
+    let shorter: Vec<u64> = nums.iter().copied().filter(|n| *n < b).collect();
+    let longer: Vec<u64> = nums.iter().copied().filter(|n| *n > b).collect();
+    let (lo, hi) = (nums[0], *nums.last().unwrap());
+    let mut out = vec![];
+    for (kname, kind) in [("memory", SlotKind::Mem), ("json", SlotKind::Json(0))] {
+        out.push(Script {
+            name: format!("{kname}: cold, warm, warm through the signable builder"),
+            slots: vec![kind],
+            ops: vec![op(0, OpKind::Tree, b), op(0, OpKind::Tree, b), op(0, OpKind::Message, b)],
+        });
+        if !shorter.is_empty() {
+            let s = *rnd::pick(rng, &shorter);
+            out.push(Script {
+                name: format!("{kname}: partially warm from a shorter earlier run"),
+                slots: vec![kind],
+                ops: vec![op(0, OpKind::Tree, s), op(0, OpKind::Tree, b)],
+            });
+        }
+        if !longer.is_empty() {
+            let l = *rnd::pick(rng, &longer);
+            out.push(Script {
+                name: format!("{kname}: warm from a longer earlier run"),
+                slots: vec![kind],
+                ops: vec![op(0, OpKind::Tree, l), op(0, OpKind::Tree, b), op(0, OpKind::Message, b)],
+            });
+        }
+        {
+            let a = rnd::range(rng, lo, hi);
+            let c = rnd::range(rng, a, hi);
+            out.push(Script {
+                name: format!("{kname}: partially warm from a digest range computation"),
+                slots: vec![kind],
+                ops: vec![op(0, OpKind::Range(a), c), op(0, OpKind::Tree, b)],
+            });
+        }
+        if !shorter.is_empty() && !longer.is_empty() {
+            let s = *rnd::pick(rng, &shorter);
+            let l = *rnd::pick(rng, &longer);
+            out.push(Script {
+                name: format!("{kname}: longer, shorter, target, longer, shorter"),
+                slots: vec![kind],
+                ops: vec![op(0, OpKind::Tree, l), op(0, OpKind::Tree, s), op(0, OpKind::Tree, b), op(0, OpKind::Tree, l), op(0, OpKind::Tree, s)],
+            });
+        }
+    }
+    // two digesters sharing one JSON cache file, used one after the other
+    {
+        let first = if shorter.is_empty() { b } else { *rnd::pick(rng, &shorter) };
+        let mut ops = vec![op(0, OpKind::Tree, first), op(1, OpKind::Tree, b), op(0, OpKind::Tree, b), op(1, OpKind::Message, b)];
+        if !longer.is_empty() {
+            ops.push(op(1, OpKind::Tree, *rnd::pick(rng, &longer)));
+            ops.push(op(0, OpKind::Tree, b));
+        }
+        out.push(Script { name: "json: two digesters sharing one cache file sequentially".into(), slots: vec![SlotKind::Json(0), SlotKind::Json(0)], ops });
+    }
+    // cache file left behind by an earlier process at another beacon
+    {
+        let other = if !longer.is_empty() && rnd::chance(rng, 1, 2) {
+            *rnd::pick(rng, &longer)
+        } else if !shorter.is_empty() {
+            *rnd::pick(rng, &shorter)
+        } else {
+            b
+        };
+        out.push(Script {
+            name: "json: cache file pre-existing from another beacon, provider rebuilt through the builder".into(),
+            slots: vec![SlotKind::Json(0), SlotKind::JsonViaBuilder(0)],
+            ops: vec![op(0, OpKind::Tree, other), op(1, OpKind::Tree, b), op(1, OpKind::Message, b)],
+        });
+    }
+    // random history
+    {
+        let slots: Vec<SlotKind> = (0..rnd::range(rng, 2, 4))
+            .map(|_| match rnd::below(rng, 4) {
+                0 => SlotKind::Mem,
+                1 => SlotKind::Json(1),
+                _ => SlotKind::Json(0),
+            })
+            .collect();
+        let mut ops = vec![];
+        for _ in 0..rnd::range(rng, 3, 8) {
+            let slot = rnd::usize_below(rng, slots.len());
+            let beacon = *rnd::pick(rng, &nums);
+            let kind = match rnd::below(rng, 5) {
+                0 => OpKind::Range(rnd::range(rng, lo, beacon)),
+                1 => OpKind::Message,
+                _ => OpKind::Tree,
+            };
+            ops.push(op(slot, kind, beacon));
+        }
+        for s in 0..slots.len() {
+            ops.push(op(s, OpKind::Tree, b));
+        }
+        out.push(Script { name: "random history over several providers".into(), slots, ops });
+    }
+    out
+}
+
+fn script_class(s: &Script) -> &'static str {
+    let json = s.slots.iter().any(|k| !matches!(k, SlotKind::Mem));
+    let mem = s.slots.iter().any(|k| matches!(k, SlotKind::Mem));
+    let shared = s.slots.iter().enumerate().any(|(i, a)| {
+        s.slots.iter().skip(i + 1).any(|b| match (a, b) {
+            (SlotKind::Json(x) | SlotKind::JsonViaBuilder(x), SlotKind::Json(y) | SlotKind::JsonViaBuilder(y)) => x == y,
+            _ => false,
+        })
+    });
+    match (mem, json, shared) {
+        (true, false, _) => "cache history, memory provider",
+        (false, true, false) => "cache history, JSON provider",
+        (false, true, true) => "cache history, JSON cache file shared by two digesters",
+        _ => "cache history, several providers",
+    }
+}
+
+fn run_script(env: &Env, mon: &mut Monitor, ctx: &Ctx, script: &Script, files: &[FileSpec], db: &Db, cache_dir: &Path, rng: &mut ChaCha20Rng) {
+    let _ = std::fs::remove_dir_all(cache_dir);
+    if std::fs::create_dir_all(cache_dir).is_err() {
+        mon.inconclusive("cannot create a cache directory");
+        return;
+    }
+    let mut digesters: Vec<Arc<CardanoImmutableDigester>> = vec![];
+    for k in &script.slots {
+        let provider: Arc<dyn ImmutableFileDigestCacheProvider> = match k {
+            SlotKind::Mem => Arc::new(MemoryImmutableFileDigestCacheProvider::default()),
+            SlotKind::Json(id) => Arc::new(JsonImmutableFileDigestCacheProvider::new(&cache_dir.join(format!("immutables_digests_{id}.json")))),
+            SlotKind::JsonViaBuilder(id) => {
+                let name = format!("immutables_digests_{id}.json");
+                let built = env.rt.block_on(JsonImmutableFileDigestCacheProviderBuilder::new(cache_dir, &name).ensure_dir_exist().build());
+                match built {
+                    Ok(p) => Arc::new(p),
+                    Err(_) => {
+                        mon.inconclusive("JsonImmutableFileDigestCacheProviderBuilder failed");
+                        return;
+                    }
+                }
+            }
+        };
+        digesters.push(Arc::new(CardanoImmutableDigester::new(Some(provider), env.logger.clone())));
+    }
+    let class = script_class(script);
+    mon.count(&format!("script:{}", script.name));
+    let mut history: Vec<String> = vec![];
+    for o in &script.ops {
+        let d = &digesters[o.slot];
+        let path = if rnd::chance(rng, 1, 3) { db.immutable_dir() } else { db.root.clone() };
+        let epoch = rnd::below(rng, 600);
+        match o.kind {
+            OpKind::Range(lo) => {
+                history.push(format!("slot{}:range({lo}..={})", o.slot, o.beacon));
+                let range = lo..=o.beacon;
+                match catch(|| env.rt.block_on(d.compute_digests_for_range(&path, &range))) {
+                    Ok(Ok(res)) => {
+                        mon.count("cache_op:range_ok");
+                        // diagnostic only (the statement is about the root): per-file digests of the range
+                        for (f, dg) in &res.entries {
+                            let want = files.iter().find(|x| x.name == f.filename).map(|x| reference::sha256_hex(&x.content));
+                            if want.as_deref() != Some(dg.as_str()) {
+                                mon.count("diag:range_digest_differs_from_sha256_of_file");
+                            }
+                        }
+                    }
+                    Ok(Err(_)) => mon.count("cache_op:range_error"),
+                    Err(p) => mon.violation(
+                        &format!("C12 digest computation panics ({class})"),
+                        &format!("compute_digests_for_range: {p}"),
+                        json!({"shard": ctx.shard, "world": ctx.world, "files": ctx.files_desc, "script": script.name, "history": history}),
+                    ),
+                }
+            }
+            OpKind::Tree | OpKind::Message => {
+                let via = if matches!(o.kind, OpKind::Tree) { "tree" } else { "message" };
+                history.push(format!("slot{}:{via}({})", o.slot, o.beacon));
+                let obs = match o.kind {
+                    OpKind::Tree => observe_tree(env, d, &path, epoch, o.beacon),
+                    _ => observe_message(env, d.clone(), &path, epoch, o.beacon),
+                };
+                let exp = expectation(files, o.beacon, mon);
+                let detail = json!({"script": script.name, "slots": format!("{:?}", script.slots), "history": history, "beacon": o.beacon, "epoch": epoch});
+                judge(mon, ctx, class, &detail, &exp, &obs);
+            }
+        }
+    }
+}
+
+// ---------------------------------------------------------------------------------------------
+// perturbations (no cache)
+
+enum Undo {
+    Write(PathBuf, Vec<u8>),
+    Remove(PathBuf),
+}
+
+fn undo(u: Undo) -> std::io::Result<()> {
+    match u {
+        Undo::Write(p, c) => std::fs::write(p, c),
+        Undo::Remove(p) => std::fs::remove_file(p),
+    }
+}
+
+/// (kind, description, files after the change, undo)
+fn perturb_inside(rng: &mut ChaCha20Rng, db: &Db, files: &[FileSpec], b: u64) -> Option<(String, Value, Vec<FileSpec>, Undo)> {
+    let idx: Vec<usize> = (0..files.len()).filter(|&i| files[i].number <= b).collect();
+    let i = *rnd::pick(rng, &idx);
+    let f = &files[i];
+    let p = db.path_of(f);
+    let mut after = files.to_vec();
+    let kind = match rnd::below(rng, 8) {
+        0 | 1 | 2 => "flip",
+        3 => "flip_first",
+        4 => "flip_last",
+        5 => "append",
+        6 => "truncate",
+        _ => "remove",
+    };
+    let (kind, desc): (&str, Value) = match kind {
+        "flip" | "flip_first" | "flip_last" if !f.content.is_empty() => {
+            let pos = match kind {
+                "flip_first" => 0,
+                "flip_last" => f.content.len() - 1,
+                _ => rnd::usize_below(rng, f.content.len()),
+            };
+            let x = 1 + rnd::below(rng, 255) as u8;
+            after[i].content[pos] ^= x;
+            ("single byte changed", json!({"file": f.name, "position": pos, "xor": x, "length": f.content.len()}))
+        }
+        "truncate" if !f.content.is_empty() => {
+            after[i].content.pop();
+            ("last byte removed", json!({"file": f.name, "length": f.content.len()}))
+        }
+        "remove" => {
+            after.remove(i);
+            ("covered file removed", json!({"file": f.name}))
+        }
+        _ => {
+            let x = rnd::below(rng, 256) as u8;
+            after[i].content.push(x);
+            ("one byte appended", json!({"file": f.name, "byte": x, "length": f.content.len()}))
+        }
+    };
+    let res = if kind == "covered file removed" { std::fs::remove_file(&p) } else { std::fs::write(&p, &after[i].content) };
+    res.ok()?;
+    Some((kind.to_string(), desc, after, Undo::Write(p, f.content.clone())))
+}
+
+fn perturb_outside(rng: &mut ChaCha20Rng, db: &Db, files: &[FileSpec], extras: &[Extra], b: u64) -> Option<(String, Value, Undo)> {
+    let beyond: Vec<&FileSpec> = files.iter().filter(|f| f.number > b).collect();
+    let extra_files: Vec<&Extra> = extras.iter().filter(|e| e.content.is_some()).collect();
+    let max = files.iter().map(|f| f.number).max().unwrap();
+    for _ in 0..8 {
+        match rnd::below(rng, 6) {
+            0 if !beyond.is_empty() => {
+                let f = *rnd::pick(rng, &beyond);
+                let mut c = f.content.clone();
+                if c.is_empty() {
+                    c.push(7);
+                } else {
+                    let pos = rnd::usize_below(rng, c.len());
+                    c[pos] ^= 0x5a;
+                }
+                std::fs::write(db.path_of(f), &c).ok()?;
+                return Some(("byte changed in a file beyond the beacon".into(), json!({"file": f.name}), Undo::Write(db.path_of(f), f.content.clone())));
+            }
+            1 if !beyond.is_empty() => {
+                let f = *rnd::pick(rng, &beyond);
+                std::fs::remove_file(db.path_of(f)).ok()?;
+                return Some(("file beyond the beacon removed".into(), json!({"file": f.name}), Undo::Write(db.path_of(f), f.content.clone())));
+            }
+            2 => {
+                let name = format!("{:05}.{}", max + 1 + rnd::below(rng, 3), EXTS[rnd::usize_below(rng, 3)]);
+                let p = db.immutable_dir().join(&name);
+                std::fs::write(&p, rnd::bytes(rng, 33)).ok()?;
+                return Some(("new file beyond the beacon".into(), json!({"file": name}), Undo::Remove(p)));
+            }
+            3 if !extra_files.is_empty() => {
+                let e = *rnd::pick(rng, &extra_files);
+                let mut c = e.content.clone().unwrap();
+                c.push(1);
+                std::fs::write(db.root.join(&e.rel), &c).ok()?;
+                return Some(("non-immutable file changed".into(), json!({"file": e.rel}), Undo::Write(db.root.join(&e.rel), e.content.clone().unwrap())));
+            }
+            4 if !extra_files.is_empty() => {
+                let e = *rnd::pick(rng, &extra_files);
+                std::fs::remove_file(db.root.join(&e.rel)).ok()?;
+                return Some(("non-immutable file removed".into(), json!({"file": e.rel}), Undo::Write(db.root.join(&e.rel), e.content.clone().unwrap())));
+            }
+            5 => {
+                let name = *rnd::pick(rng, &["immutable/notes.txt", "immutable/00000.chunk.part", "immutable/00001", "stray.primary.old", "immutable/zzz"]);
+                let p = db.root.join(name);
+                if p.exists() {
+                    continue;
+                }
+                std::fs::write(&p, rnd::bytes(rng, 20)).ok()?;
+                return Some(("new non-immutable file".into(), json!({"file": name}), Undo::Remove(p)));
+            }
+            _ => {}
+        }
+    }
+    None
+}
+
+// ---------------------------------------------------------------------------------------------
+// one world
+
+fn files_desc(files: &[FileSpec]) -> Value {
+    Value::Array(files.iter().map(|f| json!({"name": f.name, "number": f.number, "len": f.content.len(), "sha256": reference::sha256_hex(&f.content)})).collect())
+}
+
+fn run_world(env: &Env, mon: &mut Monitor, rng: &mut ChaCha20Rng, shard: u64, world: u64, dir: &Path, max_trios: u64, layouts: u64, perturbations: u64) {
+    let files = gen_files(rng, max_trios);
+    let nums = numbers(&files);
+    // beacon: often not the last number, so that files beyond the beacon exist
+    let b = match rnd::below(rng, 10) {
+        0 => nums[0],
+        1 | 2 => *nums.last().unwrap(),
+        3 | 4 | 5 if nums.len() >= 2 => nums[nums.len() - 2],
+        _ => *rnd::pick(rng, &nums),
+    };
+    let extras = gen_extras(rng, &files);
+    let desc = files_desc(&files);
+    let ctx = Ctx { shard, world, files_desc: &desc };
+    let exp = expectation(&files, b, mon);
+    let covered_n = files.iter().filter(|f| f.number <= b).count();
+    let beyond_n = files.len() - covered_n;
+    mon.count("worlds");
+    mon.count_n("covered_files", covered_n as u64);
+    mon.count_n("files_beyond_the_beacon", beyond_n as u64);
+    if files.iter().filter(|f| f.number <= b).any(|f| f.content.is_empty()) {
+        mon.count("worlds_with_an_empty_covered_file");
+    }
+    if nums.iter().any(|n| *n >= 100_000) && nums.iter().any(|n| *n < 100_000) {
+        mon.count("worlds_crossing_99999_100000");
+    }
+    if files.iter().any(|f| f.name.split('.').next().map(|s| s.len()) != Some(5) && f.number <= b) {
+        mon.count("worlds_with_unpadded_or_overpadded_covered_names");
+    }
+    let fail = |mon: &mut Monitor, e: std::io::Error| mon.inconclusive(&format!("harness i/o error while writing a database: {e}"));
+
+    // A. clean: only the covered files, created in name order, nothing else
+    {
+        let only: Vec<&FileSpec> = files.iter().filter(|f| f.number <= b).collect();
+        let root = dir.join("clean");
+        match materialize(&root, &only, &[], None) {
+            Ok(db) => {
+                let d = no_cache(env);
+                let obs = observe_tree(env, &d, &db.root, 1, b);
+                judge(mon, &ctx, "no cache, only the covered files", &json!({"beacon": b, "layout": "clean"}), &exp, &obs);
+                if mon.wants_sample() && shard < 2 && world == 0 {
+                    mon.sample(json!({"space": "clean layout", "beacon": b, "covered_files": covered_n, "files_beyond": beyond_n,
+                        "first_files": files.iter().take(4).map(|f| json!({"name": f.name, "len": f.content.len()})).collect::<Vec<_>>(),
+                        "observed": obs.short(), "expected": format!("{exp:?}")}));
+                }
+            }
+            Err(e) => fail(mon, e),
+        }
+        let _ = std::fs::remove_dir_all(&root);
+    }
+
+    // B. layouts: creation order, files beyond the beacon, other files, entry path, epoch of the beacon
+    let mut full: Option<Db> = None;
+    for l in 0..layouts {
+        let with_beyond = l == 0 || rnd::chance(rng, 2, 3);
+        let with_extras = l == 0 || rnd::chance(rng, 2, 3);
+        let shuffled = l == 0 || rnd::chance(rng, 4, 5);
+        let sel: Vec<&FileSpec> = files.iter().filter(|f| with_beyond || f.number <= b).collect();
+        let ex: Vec<Extra> = if with_extras { extras.clone() } else { vec![] };
+        let root = dir.join(format!("layout{l}"));
+        let db = match materialize(&root, &sel, &ex, if shuffled { Some(&mut *rng) } else { None }) {
+            Ok(db) => db,
+            Err(e) => {
+                fail(mon, e);
+                continue;
+            }
+        };
+        let d = no_cache(env);
+        for (via, path) in [("db", db.root.clone()), ("immutable", db.immutable_dir())] {
+            let epoch = rnd::below(rng, 600);
+            let detail = json!({"beacon": b, "epoch": epoch, "creation_order": if shuffled { "shuffled" } else { "by name" },
+                "files_beyond_the_beacon": if with_beyond { beyond_n } else { 0 }, "other_files": ex.iter().map(|e| e.rel.clone()).collect::<Vec<_>>(), "path": via, "layout": l});
+            let obs = observe_tree(env, &d, &path, epoch, b);
+            judge(mon, &ctx, "no cache, layout variant", &detail, &exp, &obs);
+            if via == "db" {
+                let obs2 = observe_message(env, d.clone(), &path, epoch, b);
+                judge(mon, &ctx, "no cache, layout variant, signable builder", &detail, &exp, &obs2);
+            }
+        }
+        if with_beyond {
+            mon.count("layouts_with_files_beyond_the_beacon");
+        }
+        if with_extras {
+            mon.count("layouts_with_other_files");
+        }
+        if l == 0 {
+            full = Some(db);
+        } else {
+            let _ = std::fs::remove_dir_all(&root);
+        }
+    }
+    let Some(db) = full else { return };
+
+    // B'. other beacons on the full layout (every number that has files, plus one that has none)
+    {
+        let d = no_cache(env);
+        let mut others: Vec<u64> = nums.clone();
+        rnd::shuffle(rng, &mut others);
+        others.truncate(3);
+        others.push(nums.last().unwrap() + 1 + rnd::below(rng, 3));
+        if let Some(g) = (nums[0]..*nums.last().unwrap()).find(|n| !nums.contains(n)) {
+            others.push(g);
+        }
+        if nums[0] > 0 {
+            others.push(nums[0] - 1);
+        }
+        for x in others {
+            let e = expectation(&files, x, mon);
+            let obs = observe_tree(env, &d, &db.root, 3, x);
+            judge(mon, &ctx, "no cache, other beacon on the same directory", &json!({"beacon": x}), &e, &obs);
+        }
+    }
+
+    // C. cache histories on the full layout (files unchanged throughout)
+    for (i, script) in scripts_for(rng, &files, b).iter().enumerate() {
+        run_script(env, mon, &ctx, script, &files, &db, &dir.join(format!("cache{i}")), rng);
+    }
+
+    // D. perturbations, no cache
+    let d = no_cache(env);
+    let base = observe_tree(env, &d, &db.root, 2, b);
+    judge(mon, &ctx, "no cache, layout variant", &json!({"beacon": b, "layout": "full, before perturbations"}), &exp, &base);
+    if let (Obs::Root(r0), Expect::Root(_)) = (&base, &exp) {
+        for _ in 0..perturbations {
+            // inside the covered set
+            if let Some((kind, pdesc, after, u)) = perturb_inside(rng, &db, &files, b) {
+                let obs = observe_tree(env, &d, &db.root, 2, b);
+                mon.eval();
+                mon.count(&format!("perturbation_inside:{kind}:{}", obs.tag()));
+                let detail = json!({"beacon": b, "perturbation": kind, "where": pdesc});
+                mon.nontrivial_str(&format!("{r0}|inside|{detail}"));
+                match &obs {
+                    Obs::Root(r) if r == r0 => mon.violation(
+                        &format!("C12 root unchanged by a change inside the covered set (no cache; {kind})"),
+                        &format!("root stays {r0} after: {detail}"),
+                        ctx.replay("perturbation inside", &detail, &exp, &obs),
+                    ),
+                    Obs::Panic(p) => mon.violation(
+                        "C12 digest computation panics (perturbed covered set)",
+                        &format!("{p}; {detail}"),
+                        ctx.replay("perturbation inside", &detail, &exp, &obs),
+                    ),
+                    _ => {}
+                }
+                // and the new root is the reference root of the changed database
+                let e2 = expectation(&after, b, mon);
+                judge(mon, &ctx, "no cache, after a change inside the covered set", &detail, &e2, &obs);
+                if undo(u).is_err() {
+                    mon.inconclusive("harness i/o error while restoring a file");
+                    return;
+                }
+            }
+            // outside the covered set
+            if let Some((kind, pdesc, u)) = perturb_outside(rng, &db, &files, &extras, b) {
+                let obs = observe_tree(env, &d, &db.root, 2, b);
+                mon.eval();
+                mon.count(&format!("perturbation_outside:{kind}:{}", obs.tag()));
+                let detail = json!({"beacon": b, "perturbation": kind, "where": pdesc});
+                mon.nontrivial_str(&format!("{r0}|outside|{detail}"));
+                if obs != base {
+                    mon.violation(
+                        &format!("C12 result changed by a change outside the covered set (no cache; {kind})"),
+                        &format!("{} became {} after: {detail}", base.short(), obs.short()),
+                        ctx.replay("perturbation outside", &detail, &exp, &obs),
+                    );
+                }
+                if undo(u).is_err() {
+                    mon.inconclusive("harness i/o error while restoring a file");
+                    return;
+                }
+            }
+        }
+        // everything restored: same root again
+        let again = observe_tree(env, &d, &db.root, 2, b);
+        judge(mon, &ctx, "no cache, layout variant", &json!({"beacon": b, "layout": "full, after all perturbations were undone"}), &exp, &again);
+    }
+}
+
+fn run_shard(shard: u64, mon: &mut Monitor, base: &Path, worlds: u64, max_trios: u64, layouts: u64, perturbations: u64) {
+    let rt = match tokio::runtime::Builder::new_multi_thread().worker_threads(1).max_blocking_threads(4).enable_all().build() {
+        Ok(rt) => rt,
+        Err(e) => {
+            mon.inconclusive(&format!("cannot build a tokio runtime: {e}"));
+            return;
+        }
+    };
+    let env = Env { rt, logger: slog::Logger::root(slog::Discard, slog::o!()) };
+    for w in 0..worlds {
+        // one generator per world: a world can be rebuilt from (seed, shard, world) alone
+        let mut rng = mon.rng("c12", shard * 1_000_000 + w);
+        let dir = base.join(format!("s{shard}w{w}"));
+        let _ = std::fs::remove_dir_all(&dir);
+        run_world(&env, mon, &mut rng, shard, w, &dir, max_trios, layouts, perturbations);
+        let _ = std::fs::remove_dir_all(&dir);
+    }
+}
+
+fn main() {
+    let args = vcore::parse_args();
+    vcore::install_panic_hook();
+    let mut mon = Monitor::new(&args);
+    if args.prop != "C12" {
+        eprintln!("mon-digest: unknown property {}", args.prop);
+        std::process::exit(2);
+    }
+    let base = std::env::temp_dir().join(format!("verif-digest-{}", std::process::id()));
+    let _ = std::fs::remove_dir_all(&base);
+    if let Err(e) = std::fs::create_dir_all(&base) {
+        mon.inconclusive(&format!("cannot create {}: {e}", base.display()));
+    }
+    let (shards, worlds, max_trios, layouts, perturbations) = match args.tier {
+        Tier::Quick => (16u64, 40u64, 30u64, 4u64, 8u64),
+        Tier::Thorough => (64, 400, 30, 6, 16),
+    };
+    let b = base.clone();
+    vcore::run_shards(&mut mon, shards, vcore::default_threads(), |s, m| run_shard(s, m, &b, worlds, max_trios, layouts, perturbations));
+    let _ = std::fs::remove_dir_all(&base);
+
+    mon.finish(
+        "databases = 2-30 immutable numbers starting at 0, 1, small, just below 100000 (name order != numeric order) or large; trios with occasionally a missing member or a whole missing number; file sizes 0-4096 incl. empty and duplicated contents; sometimes extra immutable files of the same number with unpadded / 8-digit names; beacon = first, last, last but one or random number. Observations (real digester on real temp directories, compared with the harness's own sha256 + own Merkle-mountain-range root over covered files sorted by (number, name)): (A) only the covered files created in name order; (B) layout variants: shuffled creation order, files beyond the beacon, non-immutable names inside immutable/ (other extensions, no extension, nested directory holding immutable-named files, directory named like an immutable file), sibling ledger/ volatile/ and root lock files holding immutable-named files, database root vs immutable directory as entry path, varying beacon epoch, through compute_merkle_tree and through CardanoDatabaseSignableBuilder::compute_protocol_message; other beacons on the same directory incl. numbers without files (error expected); (C) cache histories over unchanged files with memory and JSON providers: cold, warm, partially warm from a shorter run, warm from a longer run, partially warm from compute_digests_for_range, zig-zag over three beacons, two digesters sharing one JSON cache file sequentially, cache file pre-existing from another beacon with the provider rebuilt through its builder, random histories over 2-4 providers - every root computed along a history is checked; (D) no cache: single byte changed (any, first, last position) / appended / removed, covered file removed => root must differ from before (or error) and equal the reference of the changed database; byte changed in / removal of / addition of files beyond the beacon and non-immutable files => result identical. Non-trivial = an observation for which the reference expects a root (distinct = distinct (reference root, observation class, step description)) or a perturbation case.",
+        &[
+            "sha2 / blake2 crates as reference primitives; the repo's MKTree is used only to cross-check the harness's own tree combiner (a disagreement there makes the run inconclusive, not violated)",
+            "no second directory named `immutable` anywhere else in the database; no symlinks",
+            "files are never modified between a cached computation and a later one (the statement says unchanged files); perturbations are only observed without cache",
+            "non-immutable files use names outside the extension filter (.chunk/.primary/.secondary with a non-numeric stem make the listing fail by design and are not generated)",
+            "a beacon for which no file carries exactly that number legitimately errors (NotEnoughImmutable); a root returned there is only counted (diag)",
+            "the digester has no compute_digest entry point in this tree: observed at compute_merkle_tree and compute_protocol_message",
+        ],
+        args.tier.pick(5_000, 200_000),
+    );
+}
